@@ -687,77 +687,49 @@ func ruleKill(c *Ctx) {
 		c.R.Violate("R-EXIT/kill", p.Pos(f.Node()), f.Name, "grace wait", "Kill has no timer-bounded wait for a graceful exit", nil)
 		return
 	}
-	// the boolean guarding the wait
-	var gv *types.Var
-	for _, n := range g.Nodes {
-		for _, e := range n.Succs {
-			at, ok := edgeAtom(info, e)
-			if ok && at.Kind == "bool" && at.True {
-				if v, isV := identObj(info, at.X).(*types.Var); isV {
-					ee := e
-					if g.OnlyViaEdge(grace.Node, func(x *Edge) bool { return x == ee }) {
-						gv = v
-					}
-				}
-			}
+	// Under the assumption that obtaining the protocol client, or its Close, failed,
+	// the grace wait must be unreachable (Kill then force-kills at once).
+	isCloseDef := func(n *Node, wantClose bool) bool {
+		as, ok := n.Ast.(*ast.AssignStmt)
+		if !ok || len(as.Rhs) != 1 {
+			return false
 		}
-	}
-	if gv == nil {
-		c.R.Violate("R-EXIT/kill", p.Pos(grace.Ast), f.Name, "grace wait only after a successful Close", "the grace wait is not guarded by a flag", nil)
-		return
-	}
-	okAssign := true
-	sawClose := false
-	ast.Inspect(f.Body, func(x ast.Node) bool {
-		as, ok := x.(*ast.AssignStmt)
+		call, ok := ast.Unparen(as.Rhs[0]).(*ast.CallExpr)
 		if !ok {
-			return true
+			return false
 		}
-		for i, l := range as.Lhs {
-			if identObj(info, l) != gv || i >= len(as.Rhs) {
-				continue
-			}
-			r := ast.Unparen(as.Rhs[i])
-			if id, ok := r.(*ast.Ident); ok && id.Name == "false" {
-				continue
-			}
-			be, ok := r.(*ast.BinaryExpr)
-			if !ok || be.Op != token.EQL || !isNilIdent(info, be.Y) {
-				okAssign = false
-				continue
-			}
-			ev, _ := identObj(info, be.X).(*types.Var)
-			// ev must be the error of the Close call
-			fromClose := false
-			ast.Inspect(f.Body, func(y ast.Node) bool {
-				as2, ok := y.(*ast.AssignStmt)
-				if !ok {
-					return true
-				}
-				for j, l2 := range as2.Lhs {
-					if identObj(info, l2) == ev && ev != nil && j < len(as2.Rhs) {
-						if call, ok := ast.Unparen(as2.Rhs[j]).(*ast.CallExpr); ok {
-							nm := p.CalleeName(f, call)
-							if strings.HasSuffix(nm, ".Close") {
-								fromClose = true
-							}
-						}
-					}
-				}
-				return true
-			})
-			if fromClose {
-				sawClose = true
-			} else {
-				okAssign = false
-			}
+		nm := p.CalleeName(f, call)
+		if wantClose {
+			return strings.HasSuffix(nm, ".Close")
 		}
-		return true
-	})
-	if okAssign && sawClose {
-		c.R.Hold("R-EXIT/kill", p.Pos(grace.Ast), f.Name, "grace wait only after a successful Close", "the flag guarding the wait is false or `err == nil` of the protocol client's Close", true)
+		return nm == modPath+".Client.Client"
+	}
+	nClose, nClient := 0, 0
+	for _, n := range g.Nodes {
+		if isCloseDef(n, true) {
+			nClose++
+		}
+		if isCloseDef(n, false) {
+			nClient++
+		}
+	}
+	okGrace := nClose >= 1 && nClient >= 1
+	for _, wantClose := range []bool{true, false} {
+		wc := wantClose
+		seen := p.FeasibleReachAssuming(f, []*Node{g.Entry}, nil, nil, func(n *Node, v *types.Var) string {
+			if isCloseDef(n, wc) {
+				return "NN"
+			}
+			return ""
+		})
+		if seen[grace.Node] {
+			okGrace = false
+		}
+	}
+	if okGrace {
+		c.R.Hold("R-EXIT/kill", p.Pos(grace.Ast), f.Name, "grace wait only after a successful Close", "if Client() or the protocol client's Close fails, the grace wait is unreachable and Kill force-kills at once", true)
 	} else {
-		c.R.Violate("R-EXIT/kill", p.Pos(grace.Ast), f.Name, "grace wait only after a successful Close", "the flag guarding the grace wait is not derived from the error of the graceful Close request", nil)
+		c.R.Violate("R-EXIT/kill", p.Pos(grace.Ast), f.Name, "grace wait only after a successful Close", "Kill can sit out the grace period although the graceful shutdown request failed (or was never sent)", nil)
 	}
 }
 
